@@ -5,7 +5,7 @@ import re
 from . import render, vocab
 
 CLASS = {"a": "u8", "b": "u8", "c": "u8", "sa": "s8", "sb": "s8", "s": "u16", "t": "u16", "ss": "s16",
-         "X": "R", "Y": "R", "arr": "A8", "sarr": "A16", "tab": "ROM", "p": "P", "sca": "SA8", "elsev": "u8", "returnv": "u8", "dov": "u8"}
+         "X": "R", "Y": "R", "arr": "A8", "sarr": "A16", "tab": "ROM", "p": "P", "sca": "SA8", "pc": "pc8", "pca": "PA8", "elsev": "u8", "returnv": "u8", "dov": "u8"}
 
 
 def _abs(x, classes):
